@@ -53,6 +53,39 @@ pub fn parse<F: RF>(int: &[u8], frac: &[u8], exp: i32) -> Result<u64, String> {
     }
 }
 
+/// The same digits through iterators whose `size_hint` upper bound overshoots what they yield: shape 0 filters
+/// `_` separators out of a padded buffer, shape 1 stops at the first non-digit of a longer buffer (`take_while`).
+pub fn parse_lossy<F: RF>(int: &[u8], frac: &[u8], exp: i32, shape: u8) -> Result<u64, String> {
+    fn pad(d: &[u8], shape: u8) -> Vec<u8> {
+        let mut v = Vec::with_capacity(d.len() * 2 + 8);
+        if shape == 0 {
+            for (i, &c) in d.iter().enumerate() {
+                if i % 3 == 0 {
+                    v.push(b'_');
+                }
+                v.push(c);
+            }
+            v.extend_from_slice(b"__");
+        } else {
+            v.extend_from_slice(d);
+            v.extend_from_slice(b".5e7 trailing");
+        }
+        v
+    }
+    let (bi, bf) = (pad(int, shape), pad(frac, shape));
+    let r = catch_unwind(AssertUnwindSafe(|| {
+        if shape == 0 {
+            minimal_lexical::parse_float::<F, _, _>(bi.iter().filter(|&&c| c != b'_'), bf.iter().filter(|&&c| c != b'_'), exp)
+        } else {
+            minimal_lexical::parse_float::<F, _, _>(bi.iter().take_while(|c| c.is_ascii_digit()), bf.iter().take_while(|c| c.is_ascii_digit()), exp)
+        }
+    }));
+    match r {
+        Ok(x) => Ok(x.bits()),
+        Err(e) => Err(panic_msg(e)),
+    }
+}
+
 /// No unwinding guard (used where a panic must abort the child process visibly).
 #[inline]
 pub fn parse_raw<F: RF>(int: &[u8], frac: &[u8], exp: i32) -> u64 {
